@@ -8,14 +8,11 @@ one() {
   rsync -a --exclude .git /repo/ "$S/repo/"
   if ! (cd "$S/repo" && patch -p1 -s --no-backup-if-mismatch < "$D" >/dev/null 2>&1); then echo "$name NOAPPLY"; rm -rf "$S"; return; fi
   if ! (cd "$S/repo" && go build ./... >/dev/null 2>&1); then echo "$name NOBUILD"; rm -rf "$S"; return; fi
-  fired=""
-  for id in $("${DVERIF:-$V/bin/dverif}" list | cut -d' ' -f1); do
-    if "${DVERIF:-$V/bin/dverif}" check "$id" --repo "$S/repo" --out "$S/ev" -q 2>&1 | grep -q '^VIOLATION'; then fired="$fired $id"; fi
-  done
+  fired=$("${DVERIF:-$V/bin/dverif}" scan --repo "$S/repo" 2>/dev/null | awk '$2=="FIRED"{printf " %s",$1}')
   echo "$name FIRED:$fired"
   rm -rf "$S"
 }
 export -f one; export V
 OUT=$1; shift
-printf '%s\n' "$@" | xargs -P 8 -I{} bash -c 'one {}' > "$OUT"
+printf '%s\n' "$@" | xargs -P ${JOBS:-6} -I{} bash -c 'one {}' > "$OUT"
 sort -o "$OUT" "$OUT"
